@@ -39,6 +39,8 @@ type World struct {
 	tags      map[string]int
 	ginit     map[*ssa.Global]*globalInit
 	loadErrs  []string
+	findings  map[string]bool
+	names     map[*ssa.Function]map[string]ssa.Value
 }
 
 func loadWorld(repo string) (*World, error) {
@@ -56,7 +58,7 @@ func loadWorld(repo string) (*World, error) {
 	if len(errs) > 0 {
 		return nil, fmt.Errorf("package errors: %s", strings.Join(errs, "; "))
 	}
-	prog, spkgs := ssautil.AllPackages(pkgs, ssa.InstantiateGenerics)
+	prog, spkgs := ssautil.AllPackages(pkgs, ssa.InstantiateGenerics|ssa.GlobalDebug)
 	prog.Build()
 	w := &World{repo: repo, prog: prog, fset: prog.Fset, byShort: map[string]*ssa.Package{}, funcs: map[string]*ssa.Function{},
 		contracts: map[*ssa.Function]*Contract{}, cfiles: map[string]*ContractFile{}, specs: map[string]map[string]*SpecFunc{},
@@ -263,6 +265,80 @@ func (w *World) globalInit(gl *ssa.Global) *globalInit {
 	}
 	w.ginit[gl] = gi
 	return gi
+}
+
+func (w *World) findingSet() map[string]bool {
+	if w.findings == nil {
+		w.findings = map[string]bool{}
+		for _, f := range loadFindings() {
+			w.findings[f.Obligation] = true
+		}
+	}
+	return w.findings
+}
+
+func (w *World) lawFindings(f *ssa.Function, ordinal int) map[string]bool {
+	suffix := ""
+	if ordinal > 1 {
+		suffix = fmt.Sprint(ordinal)
+	}
+	key := w.fnKey(f)
+	fs := w.findingSet()
+	out := map[string]bool{}
+	for _, k := range []string{"range", "refl", "antisym", "trans", "bounded"} {
+		if fs[fmt.Sprintf("%s.law%s.%s", key, suffix, k)] {
+			out[k] = true
+		}
+	}
+	return out
+}
+
+func (w *World) clauseIsFinding(f *ssa.Function, cl *Clause, ordinal int) bool {
+	key := w.fnKey(f)
+	fs := w.findingSet()
+	for _, t := range cl.tags {
+		if fs[fmt.Sprintf("%s.post[%s]/%s", key, t, clauseLabel(cl, ordinal))] {
+			return true
+		}
+	}
+	return false
+}
+
+// localNames maps source names of single-assignment locals to their SSA values (from DebugRef instructions).
+func (w *World) localNames(fn *ssa.Function) map[string]ssa.Value {
+	if m, ok := w.names[fn]; ok {
+		return m
+	}
+	m := map[string]ssa.Value{}
+	multi := map[string]bool{}
+	for _, b := range fn.Blocks {
+		for _, in := range b.Instrs {
+			dr, ok := in.(*ssa.DebugRef)
+			if !ok || dr.IsAddr {
+				continue
+			}
+			obj := dr.Object()
+			if obj == nil {
+				continue
+			}
+			if _, isVar := obj.(*types.Var); !isVar {
+				continue
+			}
+			name := obj.Name()
+			if old, ok := m[name]; ok && old != dr.X {
+				multi[name] = true
+			}
+			m[name] = dr.X
+		}
+	}
+	for n := range multi {
+		delete(m, n)
+	}
+	if w.names == nil {
+		w.names = map[*ssa.Function]map[string]ssa.Value{}
+	}
+	w.names[fn] = m
+	return m
 }
 
 // repoFunctions returns all repo functions with bodies, sorted by key.
